@@ -205,7 +205,7 @@ def _render_key(fn):
     except T.SimAbort:
         raise
     except BaseException as e:  # noqa: BLE001
-        e.__traceback__ = None
+        e.with_traceback(None)  # C-level: works for exception classes that forbid attribute assignment
         return ("raised", exc_key(e), e)
 
 
